@@ -8,8 +8,29 @@ fields, file header, CRC, chained files) and the decoder's framing with its time
 A field value is the byte string it marshals to; that `unmarshal ∘ marshal` is the identity up to the
 documented normal form is C06 (`FitProps/C06.lean`), what validation retains is C10.
 
-PROPERTY THEOREMS: C01_wire_records, C01_wire_sequence, C01_wire_chain, C01_ts_nonmonotone_roundtrip,
+PROPERTY THEOREMS: C01_wire_records, C01_wire_sequence, C01_wire_chain, C01_wire_descs_needed, C01_ts_nonmonotone_roundtrip,
 C01_ts_wild_roundtrip, C01_fix_conservative
+
+FIELD DESCRIPTIONS (disagreement D1 of notes/links.md, repaired in the model). The decoder keeps the `field_description`
+messages of the sequence (`DecState.descs`: developer data index, field definition number, fit base type id — first byte
+of the LAST field 0 / 1 / 2 of non-zero size, 255 if none; recorded after the fields of the message are decoded, before its
+developer fields; dropped at the end of the sequence) and refuses a developer field whose description — the FIRST one with
+its (index, number) — carries an invalid base type (`decodeDeveloperFields`: `errInvalidBaseType`). The round trip therefore
+holds under one more hypothesis than typing, explicit and decidable:
+
+    msgsDescOK [] ms = true      -- no developer field of `ms` is written under a field description (first match among the
+                                 -- `field_description` messages written before it in the sequence, its own message
+                                 -- included, read as the decoder reads them) whose base type is invalid
+
+It is NECESSARY (`C01_wire_descs_needed`: without it the decoder rejects the encoder's own output) and it is what the
+encoder's MESSAGE VALIDATOR guarantees: `C01_e2e_validator_descs` (FitProps/C01E2E.lean) proves it for everything
+`messageValidator.Validate` lets through, under every validator option, and `C01_e2e_wire_chain` states the chain round trip
+of this file with the hypothesis discharged. STATUS OF A PASS-THROUGH VALIDATOR: the property quantifies over "validator
+options" — the options of the library's message validator; a custom `MessageValidator` that lets everything through is not
+one of them. A message list the standard validator would not let through as it is (here: a developer field under a
+description with an invalid base type — dropped with the default options, rejected with "preserve invalid values") is
+outside C01's domain; family `rtw` (real encoder with a pass-through validator) answers `n/a` on exactly the lines where
+`msgsDescOK` fails, and the correspondence of the model is still checked on them (model and code both: `err:basetype`).
 
 History: on the pinned tree the compressed-timestamp part held for valid, unique, non-decreasing timestamps
 only (finding KF-C01-ts: t, t+20, t+5 came back as t, t+20, t+37). Repaired in /repo by the `fix:` commit
@@ -25,31 +46,32 @@ decoding the record bytes the encoder writes returns, message by message, the sa
 byte order, developer fields and fields in order — a compressed timestamp comes back as the original
 full timestamp. No hypothesis on timestamps: they may go backwards, repeat, be invalid, lie below
 `DateTimeMin`, occur several times in a message or be of any type and size (`MsgOK` is typing only: counts
-and sizes fit a byte, base types are valid, data are bytes). -/
+and sizes fit a byte, base types are valid, data are bytes). `hdesc`: see the header (guaranteed by the message validator). -/
 theorem C01_wire_records (tsKnown : Nat → Bool) (o : Opts) (ho : OptsOK o) (ms : List WMsg)
-    (hok : ∀ m ∈ ms, MsgOK m) (tail : Bytes) :
+    (hok : ∀ m ∈ ms, MsgOK m) (hdesc : msgsDescOK [] ms = true) (tail : Bytes) :
     ∃ items, decodeRecords tsKnown ((encodeMsgs o (freshEnc o) ms).length + tail.length) DecState.fresh
         (encodeMsgs o (freshEnc o) ms).length (encodeMsgs o (freshEnc o) ms ++ tail) = (items, .ok tail) ∧
       AllMatch (RecMatches o.arch) ms (dataOf items) :=
   encodeMsgs_roundtrip tsKnown o ho.arch ms (freshEnc o) DecState.fresh hok
     (DefInv.fresh o.arch o.lruCap ho.capPos ho.cap16 _) ho.cap4
-    (fun _ => Or.inl rfl) tail _ (by omega)
+    (fun _ => Or.inl rfl) hdesc tail _ (by omega)
 
 /-- ONE FIT SEQUENCE (header, records, CRC), with or without checksum verification: `Decode` succeeds,
 consumes exactly the sequence, returns the header the encoder wrote (size, versions, data size = exact
 number of record bytes), the CRC, and matching messages. -/
 theorem C01_wire_sequence (tsKnown : Nat → Bool) (checksum : Bool) (o : Opts) (ho : OptsOK o) (h : Hdr)
-    (ms : List WMsg) (hf : FitOK o h ms) (tail : Bytes) :
+    (ms : List WMsg) (hf : FitOK o h ms) (hdesc : msgsDescOK [] ms = true) (tail : Bytes) :
     ∃ f, decodeFit tsKnown checksum (encodeFit o h ms ++ tail) = (f.items, .ok (f, tail)) ∧ FitMatches o (h, ms) f :=
-  decodeFit_encodeFit tsKnown checksum o ho h ms hf tail
+  decodeFit_encodeFit tsKnown checksum o ho h ms hf hdesc tail
 
 /-- CHAINED FILES: the `for dec.Next() { dec.Decode() }` loop over the bytes of any chain returns exactly one
 matching sequence per encoded sequence, in order, and ends without error. -/
 theorem C01_wire_chain (tsKnown : Nat → Bool) (checksum : Bool) (o : Opts) (ho : OptsOK o)
-    (fits : List (Hdr × List WMsg)) (hne : fits ≠ []) (hall : ∀ f ∈ fits, FitOK o f.1 f.2) :
+    (fits : List (Hdr × List WMsg)) (hne : fits ≠ []) (hall : ∀ f ∈ fits, FitOK o f.1 f.2)
+    (hdesc : ∀ f ∈ fits, msgsDescOK [] f.2 = true) :
     ∃ evs, decodeStream tsKnown checksum (fits.length + 1) true (encodeChain o fits) = (evs, none) ∧
       AllMatch (FitMatches o) fits (seqsOf evs) :=
-  decodeStream_encodeChain tsKnown checksum o ho fits hall true (fun _ => hne) _ (by omega)
+  decodeStream_encodeChain tsKnown checksum o ho fits hall hdesc true (fun _ => hne) _ (by omega)
 
 /-! ### non-vacuity: a concrete chain with compressed timestamps, developer fields, big-endian, LRU of 2 -/
 
@@ -69,6 +91,48 @@ example : (decodeStream (fun n => n == 20 || n == 21) true 3 true (encodeChain e
     ((seqsOf (decodeStream (fun n => n == 20 || n == 21) true 3 true (encodeChain exOpts [(⟨14, 32, 2158⟩, exMsgs)])).1).map
       (fun f => (dataOf f.items).map (·.ts))) = [[none, none, some 1000000005, some 1000000005, some 1000000031, none]] := by
   decide +kernel
+
+/-! ### field descriptions: non-vacuity and necessity of `msgsDescOK` -/
+
+def exDesc (idx num bt : Nat) : WMsg := ⟨206, [⟨0, 0x02, 3, [idx]⟩, ⟨1, 0x02, 3, [num]⟩, ⟨2, 0x02, 3, [bt]⟩], []⟩
+
+/-- developer data: (0, 1) described twice (uint16 first, then — never looked at — an invalid base type), (0, 2) described
+after its first use; a `field_description` message that carries a developer field of its own key -/
+def devMsgs : List WMsg :=
+  [ exDesc 0 1 0x84, exDesc 0 1 0x55,
+    ⟨20, [exTs 1000000000, ⟨3, 0x02, 3, [70]⟩], [⟨1, 0, [1, 2]⟩, ⟨2, 0, [9]⟩]⟩,
+    ⟨206, [⟨0, 0x02, 3, [0]⟩, ⟨1, 0x02, 3, [2]⟩, ⟨2, 0x02, 3, [0x02]⟩], [⟨2, 0, [7]⟩]⟩,
+    ⟨20, [exTs 1000000004, ⟨3, 0x02, 3, [71]⟩], [⟨1, 0, [3, 4]⟩, ⟨2, 0, [8]⟩]⟩ ]
+
+/-- the example meets the hypotheses of `C01_wire_chain` (typing is `fitOKB`, decidable), `msgsDescOK` included … -/
+example : optsOKB exOpts = true ∧ fitOKB exOpts ⟨14, 32, 2158⟩ devMsgs = true ∧ msgsDescOK [] devMsgs = true := by decide +kernel
+
+/-- … and decodes to itself (evaluated by the kernel): five data records in one sequence, no error -/
+example : (decodeStream (fun n => n == 20) true 3 true (encodeChain exOpts [(⟨14, 32, 2158⟩, devMsgs)])).2 = none ∧
+    ((seqsOf (decodeStream (fun n => n == 20) true 3 true (encodeChain exOpts [(⟨14, 32, 2158⟩, devMsgs)])).1).map
+      (fun f => (dataOf f.items).map (fun r => (r.num, r.devs.length)))) = [[(206, 0), (206, 0), (20, 2), (206, 1), (20, 2)]] := by
+  decide +kernel
+
+/-- the witness of D1 as messages: a description with base type 0x55 and a developer field that refers to it -/
+def d1Msgs : List WMsg := [exDesc 0 0 0x55, ⟨20, [⟨3, 0x02, 3, [0x50]⟩], [⟨0, 0, [7]⟩]⟩]
+
+/-- **`msgsDescOK` IS NEEDED.** The witness is well-typed (`fitOKB`) and fails `msgsDescOK`; the decoder ends the
+encoder's own output with `invalidBaseType` (as the real decoder does on the output of the real encoder with a
+pass-through validator: corpus/rtw.txt) — the statement of `C01_wire_chain` without the hypothesis is false. With the
+description's base type valid (0x02) the same messages round-trip. -/
+theorem C01_wire_descs_needed :
+    fitOKB ⟨0, false, 1⟩ ⟨14, 32, 2158⟩ d1Msgs = true ∧ msgsDescOK [] d1Msgs = false ∧
+    (decodeStream (fun _ => true) true 2 true (encodeChain ⟨0, false, 1⟩ [(⟨14, 32, 2158⟩, d1Msgs)])).2 = some .invalidBaseType ∧
+    msgsDescOK [] [exDesc 0 0 0x02, ⟨20, [⟨3, 0x02, 3, [0x50]⟩], [⟨0, 0, [7]⟩]⟩] = true ∧
+    (decodeStream (fun _ => true) true 2 true
+      (encodeChain ⟨0, false, 1⟩ [(⟨14, 32, 2158⟩, [exDesc 0 0 0x02, ⟨20, [⟨3, 0x02, 3, [0x50]⟩], [⟨0, 0, [7]⟩]⟩])])).2 = none := by
+  decide +kernel
+
+/-- a simple sufficient condition for `msgsDescOK`: every `field_description` message written carries a valid base type
+(`allDescsValid`, FitProps/WireLemmas.lean) -/
+example : allDescsValid [exDesc 0 1 0x84, ⟨20, [⟨3, 0x02, 3, [70]⟩], [⟨1, 0, [1, 2]⟩]⟩] = true ∧
+    msgsDescOK [] [exDesc 0 1 0x84, ⟨20, [⟨3, 0x02, 3, [70]⟩], [⟨1, 0, [1, 2]⟩]⟩] = true :=
+  ⟨by decide, msgsDescOK_of_allValid _ [] (fun _ h => by cases h) (by decide)⟩
 
 /-! ### the former finding KF-C01-ts: non-monotonic timestamps now round-trip -/
 
@@ -91,7 +155,7 @@ theorem kf_ok : ∀ m ∈ kfMsgs, MsgOK m := by
 example : ∃ items, decodeRecords (fun n => n == 20) ((encodeMsgs exOpts (freshEnc exOpts) kfMsgs).length + 0) DecState.fresh
       (encodeMsgs exOpts (freshEnc exOpts) kfMsgs).length (encodeMsgs exOpts (freshEnc exOpts) kfMsgs ++ []) = (items, .ok []) ∧
     AllMatch (RecMatches exOpts.arch) kfMsgs (dataOf items) :=
-  C01_wire_records (fun n => n == 20) exOpts exOpts_ok kfMsgs kf_ok []
+  C01_wire_records (fun n => n == 20) exOpts exOpts_ok kfMsgs kf_ok (by decide) []
 
 /-- …the third message (t+5, 15 s before the last timestamp the decoder saw) is written with its full timestamp:
 the records come back as t (full), t+20 (from the header), t+5 (full) — on the pinned tree the third one was
